@@ -311,6 +311,9 @@ func c15(r *Report, s *Sem) {
 				call := bs.in.(*ssa.Call)
 				ok := call.Call.StaticCallee().Name() == "DialContext"
 				r.Check(K, construct, pos, ok, "dial must take the context")
+			case "WaitGroup.Wait":
+				ok := releasedHelperWait(bs.in)
+				r.Check(K, construct+" (K3)", pos, ok, "a WaitGroup wait is accepted only as the join of a watcher goroutine that was released just before (its stop channel is closed on every path to the wait)")
 			default:
 				r.Check(K, construct, pos, false, "unclassified blocking primitive")
 			}
@@ -475,18 +478,30 @@ func forcedDeadlineBefore(in ssa.Instruction) bool {
 // whose only blocking operation is a select with an arm receiving from another local channel that this function closes
 // on every path before the receive.
 func releasedHelperWait(in ssa.Instruction) bool {
-	u, ok := in.(*ssa.UnOp)
-	if !ok || u.Op != token.ARROW {
-		return false
-	}
 	fn := in.Parent()
+	// the join: `<-stopped` on a local channel, or wg.Wait() on a local WaitGroup
 	var stopped *ssa.MakeChan
-	for _, l := range leaves(u.X) {
-		if m, ok := stripConv(l).(*ssa.MakeChan); ok && m.Parent() == fn {
-			stopped = m
+	var wg *ssa.Alloc
+	switch u := in.(type) {
+	case *ssa.UnOp:
+		if u.Op != token.ARROW {
+			return false
+		}
+		for _, l := range leaves(u.X) {
+			if m, ok := stripConv(l).(*ssa.MakeChan); ok && m.Parent() == fn {
+				stopped = m
+			}
+		}
+	case *ssa.Call:
+		g := u.Call.StaticCallee()
+		if g == nil || g.Pkg == nil || g.Pkg.Pkg.Path() != "sync" || g.Name() != "Wait" || len(u.Call.Args) != 1 {
+			return false
+		}
+		if al, ok := stripConv(u.Call.Args[0]).(*ssa.Alloc); ok && al.Parent() == fn {
+			wg = al
 		}
 	}
-	if stopped == nil {
+	if stopped == nil && wg == nil {
 		return false
 	}
 	isChan := func(v ssa.Value, m *ssa.MakeChan) bool {
@@ -497,18 +512,35 @@ func releasedHelperWait(in ssa.Instruction) bool {
 		}
 		return false
 	}
-	ok = false
+	isWG := func(v ssa.Value) bool {
+		v = stripConv(v)
+		if v == ssa.Value(wg) {
+			return true
+		}
+		if fv, ok := v.(*ssa.FreeVar); ok {
+			if b := freeVarBinding(fv); b != nil && stripConv(b) == ssa.Value(wg) {
+				return true
+			}
+		}
+		return false
+	}
+	ok := false
 	for _, w := range fn.AnonFuncs {
-		// started with go, closes `stopped` in a defer
-		closes := false
+		// started with go, signals its end in a defer: close(stopped) or wg.Done()
+		signals := false
 		eachInstr(w, func(x ssa.Instruction) {
-			if d, isDefer := x.(*ssa.Defer); isDefer {
-				if b, isB := d.Call.Value.(*ssa.Builtin); isB && b.Name() == "close" && isChan(d.Call.Args[0], stopped) {
-					closes = true
-				}
+			d, isDefer := x.(*ssa.Defer)
+			if !isDefer {
+				return
+			}
+			if b, isB := d.Call.Value.(*ssa.Builtin); isB && b.Name() == "close" && stopped != nil && isChan(d.Call.Args[0], stopped) {
+				signals = true
+			}
+			if g := d.Call.StaticCallee(); g != nil && wg != nil && g.Pkg != nil && g.Pkg.Pkg.Path() == "sync" && g.Name() == "Done" && len(d.Call.Args) == 1 && isWG(d.Call.Args[0]) {
+				signals = true
 			}
 		})
-		if !closes {
+		if !signals {
 			continue
 		}
 		// its select has an arm on a channel that fn closes before the wait
